@@ -26,13 +26,14 @@ ONE = 'one'
 OPEN_STATEMENTS = [
     'weight_two_segment_code valid on its whole domain: FALSE on the current tree (known finding C09-w2seg-decoder); '
     'proved on 13 of the 15 vectors (weight_two_segment_code_valid_partial)',
-    'binary_code_transform_sound (action of the transformed operator on encoded states) and bct_jw_eq_jw / bct_bk_eq_bk: not '
-    'proved; extractor_sound / dissolve_sound are proved for the tolerance-free Model (the regime where __isub__ drops a '
-    'non-zero coefficient below 1e-8, monomials of more than 27 variables, is excluded); the whole transform is covered by the '
-    'transform stream (Model correspondence + Spec oracle on every encoded domain state + term-for-term comparison with '
-    'jordan_wigner / bravyi_kitaev)',
-    'soundness of the constructor BinaryPolynomial(list of tuples) (BinaryPolynomial(str) is proved: string_constructor_sound) and '
-    'Shaped for the built-in constructors other than through init_shaped: covered by the poly-programs / codes streams only',
+    'binary_code_transform_sound is proved for one term of the Hamiltonian (any product of ladder operators, induction over '
+    'the reversed term: binary_code_transform_term_sound + bct_hypotheses_from_validity + update_operator_sound), for the '
+    'tolerance-free Model; not proved: the summation over the terms of the Hamiltonian with compress(), the identification of '
+    'the flipped qubit state with the encoding of the image (linearity of A v mod 2), the regime where __isub__ / += drop a '
+    'non-zero coefficient below 1e-8, and bct_jw_eq_jw / bct_bk_eq_bk term for term (covered by the transform stream: Model '
+    'correspondence + Spec oracle on every encoded domain state + term-for-term comparison with jordan_wigner / bravyi_kitaev)',
+    'Shaped for the built-in constructors other than through init_shaped: covered by the codes stream only (both constructors '
+    'of BinaryPolynomial are proved: string_constructor_sound, tuple_constructor_sound)',
 ]
 TRUSTED = [
     'C09: string tokenisation of BinaryPolynomial(str) (str.split / isdigit / int) is done by the harness '
